@@ -326,6 +326,15 @@ func genC14(r *Rand, tier string) *Case {
 		c.Server.Limit = limit
 	}
 	c.Conns[0].Cuts = genCuts(r)
+	if r.Chance(1, 4) {
+		// the handler reads every row under a time limit of its own that runs out
+		// while the row is being read, and reads again with its live context
+		for i := range c.Programs["cp"].Stmts[0].Ops {
+			if op := &c.Programs["cp"].Stmts[0].Ops[i]; op.K == "binrows" {
+				op.Flip = r.Range(1, 3)
+			}
+		}
+	}
 	return c
 }
 
@@ -398,7 +407,7 @@ func checkC14(x *Exec, c *Case) ([]Violation, bool) {
 func init() {
 	register(&Prop{
 		ID: "C14", Level: "exploration", QuickS: 25, ThoroughS: 420,
-		Rule:       "binary COPY streams (signature, flags, header extension area of 0-40 bytes, tuples, optional -1 trailer) produced by the independent encoder for tables of 1-5 columns over the covered types and 0-6 rows with NULLs anywhere; the chunking into CopyData messages is the schedule: for three short table shapes (stream <= 48 bytes), with and without trailer, EVERY split into 2 and into 3 CopyData messages is enumerated, plus whole-stream and one-byte-per-message; seeded cases use 1-byte messages, cuts inside the header, cuts exactly at row boundaries, random pieces incl. empty CopyData messages, on top of transport segmentation; corruptions: field count +1 / -1 / 0x7FFF / negative other than the -1 trailer, value length beyond the stream, truncated last row, garbage after the trailer; the rows returned by BinaryCopyReader.Read are compared with the encoded rows (value by value through the canonical form), the end of data must be io.EOF, a corruption must be an error and never a row, and the query after the COPY must be served; small message limits (256/1024) with fields of 0.5-5x the limit cut into CopyData messages that each fit; non-trivial = the row reader was driven at least once; distinct = distinct case content hashes",
+		Rule:       "binary COPY streams (signature, flags, header extension area of 0-40 bytes, tuples, optional -1 trailer) produced by the independent encoder for tables of 1-5 columns over the covered types and 0-6 rows with NULLs anywhere; the chunking into CopyData messages is the schedule: for three short table shapes (stream <= 48 bytes), with and without trailer, EVERY split into 2 and into 3 CopyData messages is enumerated, plus whole-stream and one-byte-per-message; seeded cases use 1-byte messages, cuts inside the header, cuts exactly at row boundaries, random pieces incl. empty CopyData messages, on top of transport segmentation; corruptions: field count +1 / -1 / 0x7FFF / negative other than the -1 trailer, value length beyond the stream, truncated last row, garbage after the trailer; the rows returned by BinaryCopyReader.Read are compared with the encoded rows (value by value through the canonical form), the end of data must be io.EOF, a corruption must be an error and never a row, and the query after the COPY must be served; small message limits (256/1024) with fields of 0.5-5x the limit cut into CopyData messages that each fit; a quarter of the handlers read every row under a context that turns cancelled while the row is read and read again with their live context; non-trivial = the row reader was driven at least once; distinct = distinct case content hashes",
 		Exhaustive: "all 2-piece and 3-piece splits of the encoded stream for 3 table shapes x {trailer, no trailer} (streams <= 48 bytes)",
 		Components: e1Components, Assumptions: commonAssumptions,
 		Fixed: c14Fixed, Gen: genC14, Check: checkC14,
